@@ -140,7 +140,8 @@ def c_feat_res(t):
 
 
 def step_id_of(name):
-    return int(name.split()[-1])
+    """'<kind> <id>' possibly followed by ' ~ <noise>'"""
+    return int(name.split(" ~ ")[0].split()[-1])
 
 
 def c_event(e):
